@@ -364,7 +364,24 @@ def revise_model(ctx, W, d, t, kinds=("add_effect", "drop_disjunct")):
     act = W.D["actions"][aname]
     lib_act = d.actions[aname]
     D2 = copy.deepcopy(W.D)
-    if kind == "add_effect":
+    if kind == "drop_effect":
+        # an unconditional add / delete effect is removed from the action
+        cands = [e for e in act["eff"] if e[0] in ("add", "del") and act["eff"].count(e) == 1
+                 and ("del" if e[0] == "add" else "add", e[1]) not in act["eff"]]
+        if not cands:
+            return None
+        e = cands[t.draw(len(cands))]
+        want_tokens = [e[1][1]] + list(e[1][2])
+        import re
+        target = [x for x in lib_act.discrete_effects if x.is_positive == (e[0] == "add")
+                  and re.findall(r"[^\s()]+", x.untyped_representation)[-len(want_tokens):] == want_tokens
+                  and (x.is_positive or "not" in x.untyped_representation)]
+        if len(target) != 1:
+            return None
+        lib_act.discrete_effects.discard(target[0])
+        D2["actions"][aname]["eff"] = [x for x in D2["actions"][aname]["eff"] if x != e]
+        what = f"{aname}: effect {G.r_e(e)} removed"
+    elif kind == "add_effect":
         atom = G.gen_atom(t, W.D, act["params"])
         if atom is None:
             return None
